@@ -63,6 +63,37 @@ func newLazyIncr() *verifapi.WritableBTreeV2 {
 	return bt
 }
 
+// gatedBTree records whether its background rebalancing is running and can hold the caller of GetFileSize
+// (the monitor's re-evaluation) until the scenario releases it: the scheduler gate of the smart-stop-inflight scenario.
+type gatedBTree struct {
+	background atomic.Bool
+	slow       atomic.Bool
+	entered    chan struct{}
+	release    chan struct{}
+	once       sync.Once
+}
+
+func (b *gatedBTree) EnableLazyRebalancing(verifapi.LazyRebalancingConfig) error { return nil }
+func (b *gatedBTree) EnableIncrementalRebalancing(verifapi.IncrementalRebalancingConfig) error {
+	return nil
+}
+func (b *gatedBTree) DisableRebalancing() error { return nil }
+func (b *gatedBTree) StartBackgroundRebalancing(context.Context) error {
+	b.background.Store(true)
+	return nil
+}
+func (b *gatedBTree) StopBackgroundRebalancing() error { b.background.Store(false); return nil }
+func (b *gatedBTree) GetFileSize() uint64 {
+	if b.slow.Load() {
+		b.once.Do(func() { close(b.entered) })
+		select {
+		case <-b.release:
+		case <-time.After(5 * time.Second):
+		}
+	}
+	return 1 << 30
+}
+
 type stubBTree struct{ n atomic.Int64 }
 
 func (s *stubBTree) EnableLazyRebalancing(verifapi.LazyRebalancingConfig) error {
@@ -88,7 +119,7 @@ func runC18(args []string) {
 	_ = fs.Int("workers", 0, "unused")
 	_ = fs.String("in", "", "unused")
 	_ = fs.Parse(args)
-	ev := lib.Ev{"case": 0, "op": "life", "scenario": *scenario, "returned": true, "panic": "", "gbefore": 0, "gafter": 0, "equal": true, "note": ""}
+	ev := lib.Ev{"case": 0, "op": "life", "scenario": *scenario, "returned": true, "panic": "", "gbefore": 0, "gafter": 0, "equal": true, "note": "", "bgafter": false}
 	base := runtime.NumGoroutine()
 	ev["gbefore"] = base
 	switch *scenario {
@@ -226,6 +257,66 @@ func runC18(args []string) {
 				wg.Wait()
 				_ = sr.Stop()
 				_ = sr.Stop()
+			}
+		})
+		ev["returned"], ev["panic"] = ret, pm
+	case "callback-queries-progress": // a progress callback that asks for the progress: the session must not hold its lock while calling it
+		ret, pm := timed(20*time.Second, func() {
+			for round := 0; round < 10; round++ {
+				bt := verifapi.NewWritableBTreeV2(4096)
+				bt.EnableLazyRebalancing(verifapi.DefaultLazyConfig())
+				bt.VerifSeedUnderflowNodes(2000)
+				ic := verifapi.DefaultIncrementalConfig()
+				ic.Interval, ic.Budget = 50*time.Microsecond, 20*time.Microsecond
+				var calls atomic.Int64
+				ic.ProgressCallback = func(verifapi.RebalancingProgress) {
+					calls.Add(1)
+					_, _ = bt.GetIncrementalRebalancingProgress()
+				}
+				_ = bt.EnableIncrementalRebalancing(ic)
+				deadline := time.Now().Add(300 * time.Millisecond)
+				for calls.Load() == 0 && time.Now().Before(deadline) {
+					time.Sleep(200 * time.Microsecond)
+				}
+				_ = bt.StopIncrementalRebalancing()
+			}
+		})
+		ev["returned"], ev["panic"] = ret, pm
+	case "smart-stop-inflight": // SmartStop's counterexample: a re-evaluation in flight switches into incremental mode while Stop waits
+		ret, pm := timed(30*time.Second, func() {
+			for round := 0; round < 5; round++ {
+				bt := &gatedBTree{entered: make(chan struct{}), release: make(chan struct{})}
+				sr := verifapi.NewSmartRebalancer(bt, verifapi.WithReevalInterval(2*time.Millisecond))
+				for i := 0; i < 200; i++ { // mixed workload on a large file: the selector picks incremental mode
+					op := verifapi.OpRead
+					switch {
+					case i%20 < 9:
+						op = verifapi.OpWrite
+					case i%20 >= 18:
+						op = verifapi.OpDelete
+					}
+					_ = sr.RecordOperation(op)
+				}
+				if d, _ := sr.Evaluate(); d.Mode != verifapi.ModeIncremental {
+					ev["note"] = fmt.Sprintf("setup: selector chose %v", d.Mode)
+					return
+				}
+				bt.slow.Store(true)
+				_ = sr.Start(context.Background())
+				select {
+				case <-bt.entered:
+				case <-time.After(3 * time.Second):
+					ev["note"] = "setup: the monitor never re-evaluated"
+					return
+				}
+				stopped := make(chan struct{})
+				go func() { _ = sr.Stop(); close(stopped) }()
+				time.Sleep(50 * time.Millisecond) // Stop has cancelled and waits for the monitor
+				close(bt.release)                 // the re-evaluation completes and switches mode
+				<-stopped
+				if bt.background.Load() {
+					ev["bgafter"] = true
+				}
 			}
 		})
 		ev["returned"], ev["panic"] = ret, pm
